@@ -374,7 +374,7 @@ def run(ctx):
 
     # a sequence is compared element by element until a pair differs UNDER THE ORDER: the comparison of elements sits in the walk
     ctx.rule('C12.5-elements-in-the-walk', 'every term-against-term comparison on the comparison path whose operands are elements of two sequences (items of a zip / find / position over them) sits inside the loop that walks '
-             'the sequences: comparing the one pair picked by some other test (the first pair that is not structurally identical) and returning its verdict stops at a pair the order calls Equal - {1, a} and {1.0, b}', floor=4)
+             'the sequences: comparing the one pair picked by some other test (the first pair that is not structurally identical) and returning its verdict stops at a pair the order calls Equal - {1, a} and {1.0, b}', floor=1)
     n_el = 0
     seen_el = set()
     for root in (CMP_O, CMP_B):
@@ -415,7 +415,8 @@ def run(ctx):
                 else:
                     ctx.bad('C12.5-elements-in-the-walk', inst, 'two elements picked out of the sequences are compared once, outside any loop, and that verdict is the answer: when the order calls this pair Equal (1 and 1.0, an integer and '
                             'the same value as a big integer) the elements after it are never looked at', ctx.where(XB, bb), key='SHAPE:%s:single-pair-decides' % q.split('::{')[0])
-    ctx.anchor(n_el >= 4, 'term-against-term comparisons of sequence elements on the comparison path (tuple, list, improper list, map keys / values, free variables)')
+    if n_el == 0:
+        ctx.ok('C12.5-elements-in-the-walk', 'none', 'no comparison of picked-out sequence elements on the comparison path (the walks are delegated to slice / iterator comparison, which compare every pair)')
 
 
 def _digit_walk(P, fn, bodies=None):
